@@ -48,6 +48,9 @@ def prepare(prop, tier, cfg, keep=False):
         # import rewrite
         for pkgdir, shims in world.get('rewrite', []):
             sh([os.path.join(bindir, 'simprep'), '-mode', 'rewrite', '-shims', shims, os.path.join(src, pkgdir)], cwd=src, env=env)
+        # goroutine-start seams
+        for pkgdir in world.get('gostart', []):
+            sh([os.path.join(bindir, 'simprep'), '-mode', 'gostart', os.path.join(src, pkgdir)], cwd=src, env=env)
         # export files
         for rel, content in world.get('export_files', {}).items():
             with open(os.path.join(src, rel), 'w') as f:
